@@ -5,6 +5,10 @@ proofs : lean/PyAbel/Props/C02.lean
            abel_abs_le            |Abel f x| ≤ 2 M √(R²−x²) for |f| ≤ M supported in [0, R]  (a-priori size of any true projection)
            forward_scales_with_dr the projection of the dr-stretched source is dr x the projection, as a function
            daun0_entry_le         every entry of the degree-0 forward operator is within the chord bound
+           daun0_forward_error_le a-priori envelope, every size and pixel: |forward(samples)[i] − Abel f(i)| ≤ L·√((n−½)²−i²) for an
+                                  L-Lipschitz source (first order in dr)
+           forward_error_le_of_interp / daun1_forward_error_le   the same reduction for any basis; degree 1: 2ε√(n²−i²) with ε the
+                                  piecewise-linear interpolation error (ε = max|f″|/8 is the classical estimate, a hypothesis here)
          (with C09: the daun / onion-peeling forward operators are the Abel integrals of their basis functions)
 K      : Lean operator models vs implementation arrays (methods.corr_operators)
 S      : as C01 with direction='forward' (basex, daun, direct incl. explicit r grid, hansenlaw, rbasex incl. explicit origin),
